@@ -140,6 +140,8 @@ class Collector:
                 self.add("NEXT", t, facts, node)
             if fn[0] == "builtin" and fn[1] in ("max", "min") and len(t[2]) == 1 and "default" not in dict(t[3]):
                 self.add("NONEMPTY", t, facts, node)
+            if fn[0] == "builtin" and fn[1] in ("hasattr", "getattr", "setattr") and len(t[2]) >= 2:
+                self.add("ATTRNAME", t, facts, node)
             if fn[0] == "builtin" and fn[1] == "int" and len(t[2]) == 1:
                 self.add("NOTNONE", t[2][0], facts, node, "argument of int()")
             if fn[0] == "meth" and t[2]:
@@ -364,6 +366,12 @@ class Discharger:
             return self.discharge_sub(ob, facts)
         if ob.kind == "FORMAT":
             return self.discharge_format(ob)
+        if ob.kind == "ATTRNAME":
+            nm = ob.term[2][1]
+            t_ = self.static_type(nm, ob)
+            if (nm[0] == "const" and isinstance(nm[1], str)) or t_ == ("ext", "builtins.str") or nm[0] == "proj":
+                return "D16 attribute name is a string"
+            return None
         if ob.kind == "STRFORMAT":
             # str.format: the template must be a constant whose replacement fields are all supplied (a template built
             # from input text re-reads braces in the data as fields: KeyError / IndexError / ValueError)
